@@ -141,15 +141,11 @@ theorem fanin_maximal_run_terminal {c : FanIn.Cfg} {privs : List (List Nat)} {sh
     simp [hmax a ha] at hen
 
 
-/-- T-out link for FanIn. Full statement: `allowed (privs.length = 1) input (outcome s)` for every terminal
-    state. Proved here with the order clause restricted to failure-free runs (`_partial`): that a single
-    producer's deliveries are a prefix of its source also in *aborted* runs is what the driver checks and the
-    schedule enumeration confirms on tiny instances, but it is not proved (the ghost `dropped` list does not
-    record where in the order an item was given up). Everything else (no goroutine left, nothing
-    invented or duplicated, EOF and multiset equality when failure-free) is proved for all runs. -/
-theorem fanin_allowed_partial {c : FanIn.Cfg} {privs : List (List Nat)} {shared : List Nat} {k1 k2 : Nat} {s : FanIn.St}
+/-- T-out link for FanIn: the outcome of every terminal state of every schedule (failure-free or
+    stopped at any point) satisfies `allowed`; the order clause applies to a single producer -/
+theorem fanin_allowed {c : FanIn.Cfg} {privs : List (List Nat)} {shared : List Nat} {k1 k2 : Nat} {s : FanIn.St}
     (hn : 0 < privs.length) (h : FanIn.Reachable c privs shared k1 k2 s) (ht : s.terminal = true) :
-    allowed (decide (privs.length = 1) && !s.envStopped) (privs.flatten ++ shared) (FanIn.outcome s) = true := by
+    allowed (decide (privs.length = 1)) (privs.flatten ++ shared) (FanIn.outcome s) = true := by
   have hg := FanIn.reachable_good h
   have hle : countLe s.got (privs.flatten ++ shared) = true := by
     simp only [countLe, List.all_eq_true, decide_eq_true_eq]
@@ -177,19 +173,16 @@ theorem fanin_allowed_partial {c : FanIn.Cfg} {privs : List (List Nat)} {shared 
       simp only [countEq, List.all_eq_true, beq_iff_eq]
       intro x _
       exact hp.count_eq x
-  · cases he : s.envStopped with
-    | true => simp
-    | false =>
-      cases hl : decide (privs.length = 1) with
-      | false => simp
-      | true =>
-        right
-        simp at hl
-        match privs, hl with
-        | [l], _ =>
-          have := C01.fanin_single_producer_order h he
-          simp only [List.flatten_cons, List.flatten_nil, List.append_nil]
-          exact List.isPrefixOf_iff_prefix.mpr ⟨_, by simpa [List.append_assoc] using this⟩
+  · cases hl : decide (privs.length = 1) with
+    | false => simp
+    | true =>
+      right
+      simp at hl
+      match privs, hl with
+      | [l], _ =>
+        have := (C01.fanin_single_producer_order h).1
+        simp only [List.flatten_cons, List.flatten_nil, List.append_nil]
+        exact List.isPrefixOf_iff_prefix.mpr ⟨_, by simpa [List.append_assoc] using this⟩
 
 theorem fanin_close_idempotent {c : FanIn.Cfg} {s s1 s2 : FanIn.St}
     (h1 : FanIn.step c s .close = some s1) (h2 : FanIn.step c s1 .close = some s2) :
@@ -240,11 +233,11 @@ theorem fanout_maximal_run_terminal {c : FanOut.Cfg} {input : List Nat} {k1 k2 :
     simp [hmax a ha] at hen
 
 
-/-- T-out link for FanOut; as for FanIn the order clause (one worker) is proved for failure-free runs only
-    (`_partial`, same reason). -/
-theorem fanout_allowed_partial {c : FanOut.Cfg} {input : List Nat} {k1 k2 : Nat} {s : FanOut.St}
+/-- T-out link for FanOut: the outcome of every terminal state of every schedule satisfies `allowed`;
+    the order clause applies to a single worker -/
+theorem fanout_allowed {c : FanOut.Cfg} {input : List Nat} {k1 k2 : Nat} {s : FanOut.St}
     (hwf : c.wf) (h : FanOut.Reachable c input k1 k2 s) (ht : s.terminal c = true) :
-    allowed (decide (c.n = 1) && !s.envStopped) input (FanOut.outcome c s) = true := by
+    allowed (decide (c.n = 1)) input (FanOut.outcome c s) = true := by
   have hg := FanOut.reachable_good h
   have hle : countLe (s.got ++ s.seen) input = true := by
     simp only [countLe, List.all_eq_true, decide_eq_true_eq]
@@ -266,16 +259,13 @@ theorem fanout_allowed_partial {c : FanOut.Cfg} {input : List Nat} {k1 k2 : Nat}
       simp only [countEq, List.all_eq_true, beq_iff_eq]
       intro x _
       exact hp.count_eq x
-  · cases he : s.envStopped with
-    | true => simp
-    | false =>
-      cases hl : decide (c.n = 1) with
-      | false => simp
-      | true =>
-        right
-        simp at hl
-        have := C01.fanout_single_worker_order h hl he
-        exact List.isPrefixOf_iff_prefix.mpr ⟨_, by simpa [List.append_assoc] using this⟩
+  · cases hl : decide (c.n = 1) with
+    | false => simp
+    | true =>
+      right
+      simp at hl
+      have := (C01.fanout_single_worker_order h hl).1
+      exact List.isPrefixOf_iff_prefix.mpr ⟨_, by simpa [List.append_assoc] using this⟩
 
 theorem fanout_close_idempotent {c : FanOut.Cfg} {s s1 s2 : FanOut.St}
     (h1 : FanOut.step c s .close = some s1) (h2 : FanOut.step c s1 .close = some s2) :
